@@ -8,3 +8,23 @@ META["C11"] = {
              "on climbing out); rapid extends to longer paths and odd names. Exhaustive inside the stated bounds, sampled beyond."),
     "note": "Trusts the harness model (40 lines) and go-slug's parsers for building the base values; names needing URL escaping are compared through accessors only (printing is C06).",
 }
+META["C01"] = {
+    "technique": "rapid PBT over hostile tar.gz entry sequences and fault plans; arena snapshot before/after as oracle; native fuzzing (thorough)",
+    "text": ("Generated adversarial archives (entry orders, name/target spellings, repeated names, links before files, truncated and failing "
+             "readers) are unpacked into a destination nested in an arena whose complete observable state outside dst is snapshotted before "
+             "and after; any difference is a violation whatever Unpack returned. Sampled, not exhaustive."),
+    "note": "Trusts the harness snapshot (Lstat/Readlink/sha256) and tar builders; dst's own inode and atime are excluded; runs as root so permission bits never mask an escape.",
+}
+META["C04"] = {
+    "technique": "rapid PBT over cooperating symlink entries; physical link resolution of the unpacked tree as oracle; IllegalSlugError classification",
+    "text": ("Every symlink left under dst is resolved the way the kernel would and must stay inside dst (unless allow-listed); archives whose "
+             "only offence is one directly escaping link must be refused with an illegal-slug error. One known finding (link made escaping by "
+             "way of another link) is excluded at the oracle and replayed as KNOWN-FINDING."),
+    "note": "The physical resolver is harness code (hop limit 40, lexical continuation past missing components).",
+}
+META["C02"] = {
+    "technique": "rapid PBT over generated trees x packer options; Pack->Unpack round-trip comparison; second pass as an unprivileged uid",
+    "text": ("Round trip over generated trees with the comparison the property states (paths, type, content, permission bits, link target, "
+             "mtime rounded to the second), omissions decided by an independent ignore matcher; root and uid 65534."),
+    "note": "Trusts fsx.Snapshot; ignore-on directory entries are lenient here and judged by C03.",
+}
